@@ -2,7 +2,10 @@
 #![allow(dead_code, unused_imports, unused_variables, non_snake_case)]
 extern crate ff_zeroize as ff;
 extern crate pairing_plus as pp;
+extern crate alloc;
 
 pub mod toyref;
 #[cfg(kani)]
 mod c01;
+#[cfg(kani)]
+mod c08;
